@@ -376,6 +376,11 @@ def result_from_residual(exe, path, callee, args, dst_ty):
 
 @contract(r'^Box::<.*>::new$')
 def box_new(exe, path, callee, args, dst_ty):
+    if getattr(exe, 'boxes_on_heap', False):
+        # a box is a pointer to its own heap cell (needed when a box pointer is copied and then written through)
+        key = ('box', path.new_fid())
+        path.store[key] = args[0]
+        return [('ret', path, Ref(key))]
     return [('ret', path, args[0])]
 
 
